@@ -130,7 +130,9 @@ pub fn check_progress(sc: &Scenario, tr: &Trace) -> Result<Vec<&'static str>, Fa
     // keep-alive PDUs
     let mut last_k = 0u64;
     for d in tr.emitted(p.to, p.from) {
-        if d.t > r_end {
+        // at (or after) the millisecond in which the first receive transaction ended, a straggler may already have
+        // started a second one for the same id, which truthfully holds nothing: such answers are not judged
+        if d.t >= r_end {
             continue;
         }
         if let Some(PDUPayload::Directive(Operations::KeepAlive(k))) = d.pdu.as_ref().map(|x| &x.payload) {
